@@ -1,242 +1,155 @@
 //! @module dht::routing_maintenance::eviction::verif_proofs
-//! Kani harnesses for EvictionManager (C16): a peer is an eviction candidate exactly when it was
-//! explicitly rejected, or has >= max consecutive failures since its last success, or its trust
-//! score is below the threshold. Map sizes are concrete per check call (presence flags are
-//! enumerated), all counters, scores and thresholds are symbolic.
+//! EvictionManager (C16). The deciding engine for this module is the Verus unit `evict` (contracts
+//! on the mechanically extracted functions, unbounded maps). The Kani harnesses that used to live
+//! here (hashbrown tables with 1-2 entries) never finished within 900 s and were removed (see
+//! DESIGN.md section 0.3).
+//!
+//! What remains is the NATIVE FAILING-INPUT SEARCH used when the deductive route cannot decide
+//! (a spliced closure contract / loop invariant no longer proves): random event histories on the
+//! real EvictionManager, checked against the executable form of the property's policy predicate.
+//! A hit is reported with the concrete history; no hit leaves the run UNDECIDED. The search is never
+//! counted as evidence that the property holds.
+#[allow(unused_imports)]
 use super::*;
-use std::mem::ManuallyDrop;
-use std::time::Instant;
 
-fn stub_instant_now() -> Instant {
-    unsafe { std::mem::transmute::<(i64, u32), Instant>((1_000_000, 0)) }
-}
-fn stub_random_state() -> std::hash::RandomState {
-    unsafe { std::mem::transmute::<(u64, u64), std::hash::RandomState>((0x0123_4567_89ab_cdef, 0x0f1e_2d3c_4b5a_6978)) }
-}
-fn stub_format(_args: std::fmt::Arguments<'_>) -> String {
-    // the rendered text of EvictionReason::LowTrust is not part of any obligation
-    String::new()
-}
+#[cfg(test)]
+mod search {
+    use super::*;
 
-fn id(b: u8) -> DhtNodeId {
-    DhtNodeId::from_bytes([b; 32])
-}
-
-fn any_reason() -> EvictionReason {
-    if kani::any() {
-        EvictionReason::CloseGroupRejection
-    } else {
-        EvictionReason::Stale
+    struct Rng(u64);
+    impl Rng {
+        fn next(&mut self) -> u64 {
+            self.0 ^= self.0 << 13;
+            self.0 ^= self.0 >> 7;
+            self.0 ^= self.0 << 17;
+            self.0
+        }
+        fn below(&mut self, n: u64) -> u64 {
+            self.next() % n
+        }
     }
-}
 
-struct Sym {
-    cf: u32,
-    score: f64,
-    reason: EvictionReason,
-}
+    /// scores and thresholds come from one small grid so that equality at the threshold is common
+    const GRID: [f64; 9] = [f64::NAN, -1.0, 0.0, 0.1, 0.15, 0.2, 0.5, 1.0, 2.0];
 
-/// Manager tracking node X with the given presence flags plus (optionally) another node Y with
-/// arbitrary state in all three maps.
-fn mk_manager(l: bool, t: bool, m: bool, with_y: bool) -> (EvictionManager, Sym, Sym) {
-    let cfg = MaintenanceConfig {
-        max_consecutive_failures: kani::any(),
-        min_trust_threshold: kani::any(),
-        ..Default::default()
-    };
-    // same state as EvictionManager::new(cfg) (checked by c16_eviction_new_is_empty), but with
-    // room for the entries so that hashbrown never rehashes inside the harness
-    let mut mgr = EvictionManager {
-        config: cfg,
-        liveness_states: HashMap::with_capacity(3),
-        trust_scores: HashMap::with_capacity(3),
-        marked_for_eviction: HashMap::with_capacity(3),
-    };
-    let x = Sym { cf: kani::any(), score: kani::any(), reason: any_reason() };
-    let y = Sym { cf: kani::any(), score: kani::any(), reason: any_reason() };
-    kani::assume(x.cf < u32::MAX && y.cf < u32::MAX);
-    if l {
-        let mut s = NodeLivenessState::new();
-        s.consecutive_failures = x.cf;
-        mgr.liveness_states.insert(id(1), s);
+    #[derive(Clone)]
+    struct Model {
+        cf: std::collections::HashMap<u8, u32>, // tracked liveness states: consecutive failures
+        trust: std::collections::HashMap<u8, f64>,
+        marked: std::collections::HashMap<u8, EvictionReason>,
     }
-    if t {
-        mgr.trust_scores.insert(id(1), x.score);
-    }
-    if m {
-        mgr.marked_for_eviction.insert(id(1), x.reason.clone());
-    }
-    if with_y {
-        let mut s = NodeLivenessState::new();
-        s.consecutive_failures = y.cf;
-        mgr.liveness_states.insert(id(2), s);
-        mgr.trust_scores.insert(id(2), y.score);
-    }
-    (mgr, x, y)
-}
 
-fn spec_candidate(mgr: &EvictionManager, s: &Sym, l: bool, t: bool, m: bool) -> bool {
-    m || (l && s.cf >= mgr.config.max_consecutive_failures) || (t && s.score < mgr.config.min_trust_threshold)
-}
+    fn id(b: u8) -> DhtNodeId {
+        DhtNodeId::from_bytes([b; 32])
+    }
 
-fn check_reason(l: bool, t: bool, m: bool) {
-    let (mgr, x, _y) = mk_manager(l, t, m, true);
-    let mgr = ManuallyDrop::new(mgr);
-    let max = mgr.config.max_consecutive_failures;
-    let thr = mgr.config.min_trust_threshold;
-    assert!(mgr.should_evict(&id(1)) == (l && x.cf >= max), "C16/evict/failure_candidate_iff_max_consecutive_failures");
-    assert!(mgr.should_evict_for_trust(&id(1)) == (t && x.score < thr), "C16/evict/trust_candidate_iff_below_threshold");
-    assert!(mgr.get_consecutive_failures(&id(1)) == if l { x.cf } else { 0 }, "C16/evict/failure_count_reported");
-    let r = ManuallyDrop::new(mgr.get_eviction_reason(&id(1)));
-    assert!(r.is_some() == spec_candidate(&mgr, &x, l, t, m), "C16/evict/candidate_exactly_when_policy_says");
-    if let Some(reason) = &*r {
-        if m {
-            assert!(*reason == x.reason, "C16/evict/explicit_rejection_takes_precedence");
-        } else if l && x.cf >= max {
-            assert!(*reason == EvictionReason::ConsecutiveFailures(x.cf), "C16/evict/failures_before_trust");
+    fn policy(m: &Model, x: u8, max: u32, thr: f64) -> Option<u8> {
+        // 0 = explicit rejection, 1 = failures, 2 = trust (precedence in this order)
+        if m.marked.contains_key(&x) {
+            Some(0)
+        } else if m.cf.get(&x).is_some_and(|c| *c >= max) {
+            Some(1)
+        } else if m.trust.get(&x).is_some_and(|s| *s < thr) {
+            Some(2)
         } else {
-            assert!(matches!(reason, EvictionReason::LowTrust(_)), "C16/evict/low_trust_reason");
+            None
         }
     }
-    // an unknown peer is never a candidate
-    let u = ManuallyDrop::new(mgr.get_eviction_reason(&id(9)));
-    assert!(u.is_none(), "C16/evict/unknown_peer_never_candidate");
-}
 
-macro_rules! evict_harness {
-    ($name:ident, $f:ident, $k:expr) => {
-        #[kani::proof]
-        #[kani::stub(std::time::Instant::now, stub_instant_now)]
-        #[kani::stub(std::hash::RandomState::new, stub_random_state)]
-        #[kani::stub(alloc::fmt::format, stub_format)]
-        #[kani::unwind(5)]
-        fn $name() {
-            $f($k & 1 != 0, $k & 2 != 0, $k & 4 != 0);
-        }
-    };
-}
-
-// @verif property=C16 class=bounded bound="peer X tracked in: liveness=no, trust=no, marked=no; plus 1 other tracked peer; all u32 counts, all f64 scores/thresholds incl. NaN" fns=EvictionManager::get_eviction_reason,EvictionManager::should_evict,EvictionManager::should_evict_for_trust,EvictionManager::get_consecutive_failures uses=check_reason,mk_manager,evict_harness unwindset="memcmp:34,simd_bitmask_impl:18,Hasher>::write:7,rehash_in_place:10,resize_inner:10,prepare_rehash_in_place:10,FullBucketsIndices:10" tier=quick,thorough panic=violation
-evict_harness!(c16_eviction_reason_policy_0, check_reason, 0u8);
-// @verif property=C16 class=bounded bound="peer X tracked in: liveness=yes, trust=no, marked=no; plus 1 other tracked peer; all u32 counts, all f64 scores/thresholds incl. NaN" fns=EvictionManager::get_eviction_reason,EvictionManager::should_evict,EvictionManager::should_evict_for_trust,EvictionManager::get_consecutive_failures uses=check_reason,mk_manager,evict_harness unwindset="memcmp:34,simd_bitmask_impl:18,Hasher>::write:7,rehash_in_place:10,resize_inner:10,prepare_rehash_in_place:10,FullBucketsIndices:10" tier=quick,thorough panic=violation
-evict_harness!(c16_eviction_reason_policy_1, check_reason, 1u8);
-// @verif property=C16 class=bounded bound="peer X tracked in: liveness=no, trust=yes, marked=no; plus 1 other tracked peer; all u32 counts, all f64 scores/thresholds incl. NaN" fns=EvictionManager::get_eviction_reason,EvictionManager::should_evict,EvictionManager::should_evict_for_trust,EvictionManager::get_consecutive_failures uses=check_reason,mk_manager,evict_harness unwindset="memcmp:34,simd_bitmask_impl:18,Hasher>::write:7,rehash_in_place:10,resize_inner:10,prepare_rehash_in_place:10,FullBucketsIndices:10" tier=quick,thorough panic=violation
-evict_harness!(c16_eviction_reason_policy_2, check_reason, 2u8);
-// @verif property=C16 class=bounded bound="peer X tracked in: liveness=yes, trust=yes, marked=no; plus 1 other tracked peer; all u32 counts, all f64 scores/thresholds incl. NaN" fns=EvictionManager::get_eviction_reason,EvictionManager::should_evict,EvictionManager::should_evict_for_trust,EvictionManager::get_consecutive_failures uses=check_reason,mk_manager,evict_harness unwindset="memcmp:34,simd_bitmask_impl:18,Hasher>::write:7,rehash_in_place:10,resize_inner:10,prepare_rehash_in_place:10,FullBucketsIndices:10" tier=quick,thorough panic=violation
-evict_harness!(c16_eviction_reason_policy_3, check_reason, 3u8);
-// @verif property=C16 class=bounded bound="peer X tracked in: liveness=no, trust=no, marked=yes; plus 1 other tracked peer; all u32 counts, all f64 scores/thresholds incl. NaN" fns=EvictionManager::get_eviction_reason,EvictionManager::should_evict,EvictionManager::should_evict_for_trust,EvictionManager::get_consecutive_failures uses=check_reason,mk_manager,evict_harness unwindset="memcmp:34,simd_bitmask_impl:18,Hasher>::write:7,rehash_in_place:10,resize_inner:10,prepare_rehash_in_place:10,FullBucketsIndices:10" tier=quick,thorough panic=violation
-evict_harness!(c16_eviction_reason_policy_4, check_reason, 4u8);
-// @verif property=C16 class=bounded bound="peer X tracked in: liveness=yes, trust=no, marked=yes; plus 1 other tracked peer; all u32 counts, all f64 scores/thresholds incl. NaN" fns=EvictionManager::get_eviction_reason,EvictionManager::should_evict,EvictionManager::should_evict_for_trust,EvictionManager::get_consecutive_failures uses=check_reason,mk_manager,evict_harness unwindset="memcmp:34,simd_bitmask_impl:18,Hasher>::write:7,rehash_in_place:10,resize_inner:10,prepare_rehash_in_place:10,FullBucketsIndices:10" tier=quick,thorough panic=violation
-evict_harness!(c16_eviction_reason_policy_5, check_reason, 5u8);
-// @verif property=C16 class=bounded bound="peer X tracked in: liveness=no, trust=yes, marked=yes; plus 1 other tracked peer; all u32 counts, all f64 scores/thresholds incl. NaN" fns=EvictionManager::get_eviction_reason,EvictionManager::should_evict,EvictionManager::should_evict_for_trust,EvictionManager::get_consecutive_failures uses=check_reason,mk_manager,evict_harness unwindset="memcmp:34,simd_bitmask_impl:18,Hasher>::write:7,rehash_in_place:10,resize_inner:10,prepare_rehash_in_place:10,FullBucketsIndices:10" tier=quick,thorough panic=violation
-evict_harness!(c16_eviction_reason_policy_6, check_reason, 6u8);
-// @verif property=C16 class=bounded bound="peer X tracked in: liveness=yes, trust=yes, marked=yes; plus 1 other tracked peer; all u32 counts, all f64 scores/thresholds incl. NaN" fns=EvictionManager::get_eviction_reason,EvictionManager::should_evict,EvictionManager::should_evict_for_trust,EvictionManager::get_consecutive_failures uses=check_reason,mk_manager,evict_harness unwindset="memcmp:34,simd_bitmask_impl:18,Hasher>::write:7,rehash_in_place:10,resize_inner:10,prepare_rehash_in_place:10,FullBucketsIndices:10" tier=quick,thorough panic=violation
-evict_harness!(c16_eviction_reason_policy_7, check_reason, 7u8);
-
-fn check_events(l: bool, t: bool, m: bool) {
-    let (mgr, x, y) = mk_manager(l, t, m, true);
-    let mut mgr = ManuallyDrop::new(mgr);
-    let max = mgr.config.max_consecutive_failures;
-    let ev: u8 = kani::any();
-    kani::assume(ev < 5);
-    let new_score: f64 = kani::any();
-    match ev {
-        0 => {
-            mgr.record_failure(&id(1));
-            let want = if l { x.cf + 1 } else { 1 };
-            assert!(mgr.get_consecutive_failures(&id(1)) == want, "C16/evict/failure_counts_since_last_success");
-        }
-        1 => {
-            mgr.record_success(&id(1));
-            assert!(mgr.get_consecutive_failures(&id(1)) == 0, "C16/evict/one_success_clears_failures");
-            assert!(mgr.should_evict(&id(1)) == (max == 0), "C16/evict/one_success_clears_failure_candidacy");
-        }
-        2 => {
-            mgr.update_trust_score(&id(1), new_score);
-            assert!(
-                mgr.should_evict_for_trust(&id(1)) == (new_score < mgr.config.min_trust_threshold),
-                "C16/evict/trust_update_takes_effect"
-            );
-        }
-        3 => {
-            mgr.record_eviction(&id(1), EvictionReason::CloseGroupRejection);
-            let r = ManuallyDrop::new(mgr.get_eviction_reason(&id(1)));
-            assert!(*r == Some(EvictionReason::CloseGroupRejection), "C16/evict/explicit_rejection_makes_candidate");
-        }
-        _ => {
-            mgr.remove_node(&id(1));
-            let r = ManuallyDrop::new(mgr.get_eviction_reason(&id(1)));
-            assert!(r.is_none() && mgr.get_consecutive_failures(&id(1)) == 0 && mgr.get_trust_score(&id(1)).is_none(),
-                "C16/evict/forgotten_peer_has_no_state");
-        }
-    }
-    // frame: events about X never change what is known about Y
-    assert!(mgr.get_consecutive_failures(&id(2)) == y.cf, "C16/evict/other_peer_failures_unchanged");
-    let ys = mgr.get_trust_score(&id(2));
-    assert!(ys.is_some() && ys.unwrap().to_bits() == y.score.to_bits(), "C16/evict/other_peer_trust_unchanged");
-    assert!(!mgr.marked_for_eviction.contains_key(&id(2)), "C16/evict/other_peer_not_marked");
-}
-
-// @verif property=C16 class=bounded bound="one event (failure/success/trust update/mark/forget) on peer X tracked in: liveness=no, trust=no, marked=no; one other tracked peer" fns=EvictionManager::record_failure,EvictionManager::record_success,EvictionManager::update_trust_score,EvictionManager::record_eviction,EvictionManager::remove_node uses=check_events,mk_manager,evict_harness unwindset="memcmp:34,simd_bitmask_impl:18,Hasher>::write:7,rehash_in_place:10,resize_inner:10,prepare_rehash_in_place:10,FullBucketsIndices:10" tier=quick,thorough panic=violation
-evict_harness!(c16_eviction_events_0, check_events, 0u8);
-// @verif property=C16 class=bounded bound="one event (failure/success/trust update/mark/forget) on peer X tracked in: liveness=yes, trust=no, marked=no; one other tracked peer" fns=EvictionManager::record_failure,EvictionManager::record_success,EvictionManager::update_trust_score,EvictionManager::record_eviction,EvictionManager::remove_node uses=check_events,mk_manager,evict_harness unwindset="memcmp:34,simd_bitmask_impl:18,Hasher>::write:7,rehash_in_place:10,resize_inner:10,prepare_rehash_in_place:10,FullBucketsIndices:10" tier=quick,thorough panic=violation
-evict_harness!(c16_eviction_events_1, check_events, 1u8);
-// @verif property=C16 class=bounded bound="one event (failure/success/trust update/mark/forget) on peer X tracked in: liveness=no, trust=yes, marked=no; one other tracked peer" fns=EvictionManager::record_failure,EvictionManager::record_success,EvictionManager::update_trust_score,EvictionManager::record_eviction,EvictionManager::remove_node uses=check_events,mk_manager,evict_harness unwindset="memcmp:34,simd_bitmask_impl:18,Hasher>::write:7,rehash_in_place:10,resize_inner:10,prepare_rehash_in_place:10,FullBucketsIndices:10" tier=quick,thorough panic=violation
-evict_harness!(c16_eviction_events_2, check_events, 2u8);
-// @verif property=C16 class=bounded bound="one event (failure/success/trust update/mark/forget) on peer X tracked in: liveness=yes, trust=yes, marked=no; one other tracked peer" fns=EvictionManager::record_failure,EvictionManager::record_success,EvictionManager::update_trust_score,EvictionManager::record_eviction,EvictionManager::remove_node uses=check_events,mk_manager,evict_harness unwindset="memcmp:34,simd_bitmask_impl:18,Hasher>::write:7,rehash_in_place:10,resize_inner:10,prepare_rehash_in_place:10,FullBucketsIndices:10" tier=quick,thorough panic=violation
-evict_harness!(c16_eviction_events_3, check_events, 3u8);
-// @verif property=C16 class=bounded bound="one event (failure/success/trust update/mark/forget) on peer X tracked in: liveness=no, trust=no, marked=yes; one other tracked peer" fns=EvictionManager::record_failure,EvictionManager::record_success,EvictionManager::update_trust_score,EvictionManager::record_eviction,EvictionManager::remove_node uses=check_events,mk_manager,evict_harness unwindset="memcmp:34,simd_bitmask_impl:18,Hasher>::write:7,rehash_in_place:10,resize_inner:10,prepare_rehash_in_place:10,FullBucketsIndices:10" tier=quick,thorough panic=violation
-evict_harness!(c16_eviction_events_4, check_events, 4u8);
-// @verif property=C16 class=bounded bound="one event (failure/success/trust update/mark/forget) on peer X tracked in: liveness=yes, trust=no, marked=yes; one other tracked peer" fns=EvictionManager::record_failure,EvictionManager::record_success,EvictionManager::update_trust_score,EvictionManager::record_eviction,EvictionManager::remove_node uses=check_events,mk_manager,evict_harness unwindset="memcmp:34,simd_bitmask_impl:18,Hasher>::write:7,rehash_in_place:10,resize_inner:10,prepare_rehash_in_place:10,FullBucketsIndices:10" tier=quick,thorough panic=violation
-evict_harness!(c16_eviction_events_5, check_events, 5u8);
-// @verif property=C16 class=bounded bound="one event (failure/success/trust update/mark/forget) on peer X tracked in: liveness=no, trust=yes, marked=yes; one other tracked peer" fns=EvictionManager::record_failure,EvictionManager::record_success,EvictionManager::update_trust_score,EvictionManager::record_eviction,EvictionManager::remove_node uses=check_events,mk_manager,evict_harness unwindset="memcmp:34,simd_bitmask_impl:18,Hasher>::write:7,rehash_in_place:10,resize_inner:10,prepare_rehash_in_place:10,FullBucketsIndices:10" tier=quick,thorough panic=violation
-evict_harness!(c16_eviction_events_6, check_events, 6u8);
-// @verif property=C16 class=bounded bound="one event (failure/success/trust update/mark/forget) on peer X tracked in: liveness=yes, trust=yes, marked=yes; one other tracked peer" fns=EvictionManager::record_failure,EvictionManager::record_success,EvictionManager::update_trust_score,EvictionManager::record_eviction,EvictionManager::remove_node uses=check_events,mk_manager,evict_harness unwindset="memcmp:34,simd_bitmask_impl:18,Hasher>::write:7,rehash_in_place:10,resize_inner:10,prepare_rehash_in_place:10,FullBucketsIndices:10" tier=quick,thorough panic=violation
-evict_harness!(c16_eviction_events_7, check_events, 7u8);
-
-fn check_candidates(l: bool, t: bool, m: bool) {
-    let (mgr, x, y) = mk_manager(l, t, m, true);
-    let mgr = ManuallyDrop::new(mgr);
-    let c = ManuallyDrop::new(mgr.get_eviction_candidates());
-    let x_is = spec_candidate(&mgr, &x, l, t, m);
-    let y_is = spec_candidate(&mgr, &y, true, true, false);
-    let mut nx = 0;
-    let mut ny = 0;
-    let mut other = 0;
-    let mut i = 0;
-    while i < 4 {
-        if i < c.len() {
-            if c[i].0 == id(1) {
-                nx += 1;
-            } else if c[i].0 == id(2) {
-                ny += 1;
-            } else {
-                other += 1;
+    fn check(mgr: &EvictionManager, m: &Model, max: u32, thr: f64, hist: &str) {
+        for x in 0u8..6 {
+            let want = policy(m, x, max, thr);
+            let got = mgr.get_eviction_reason(&id(x));
+            let got_kind = match &got {
+                None => None,
+                Some(r) if m.marked.get(&x) == Some(r) && want == Some(0) => Some(0),
+                Some(EvictionReason::ConsecutiveFailures(n)) if want == Some(1) && Some(n) == m.cf.get(&x) => Some(1),
+                Some(EvictionReason::LowTrust(_)) if want == Some(2) => Some(2),
+                Some(_) => Some(9),
+            };
+            if got_kind != want {
+                panic!("VERIF-SEARCH-HIT C16/evict/candidate_exactly_when_failures_or_low_trust_or_rejected peer={} want={:?} got={:?} max={} thr={} history=[{}]", x, want, got, max, thr, hist);
+            }
+            if mgr.should_evict(&id(x)) != m.cf.get(&x).is_some_and(|c| *c >= max) {
+                panic!("VERIF-SEARCH-HIT C16/evict/failure_candidate_iff_max_consecutive_failures peer={} max={} history=[{}]", x, max, hist);
+            }
+            if mgr.should_evict_for_trust(&id(x)) != m.trust.get(&x).is_some_and(|s| *s < thr) {
+                panic!("VERIF-SEARCH-HIT C16/evict/trust_candidate_iff_score_below_threshold peer={} thr={} score={:?} history=[{}]", x, thr, m.trust.get(&x), hist);
+            }
+            if mgr.get_consecutive_failures(&id(x)) != m.cf.get(&x).copied().unwrap_or(0) {
+                panic!("VERIF-SEARCH-HIT C16/evict/failure_count_reported peer={} history=[{}]", x, hist);
             }
         }
-        i += 1;
+        let list = mgr.get_eviction_candidates();
+        for x in 0u8..6 {
+            let n = list.iter().filter(|(i, _)| *i == id(x)).count();
+            let want = policy(m, x, max, thr).is_some();
+            if n != usize::from(want) {
+                panic!("VERIF-SEARCH-HIT C16/evict/candidate_list_is_exactly_the_candidates_each_once_with_the_policy_reason peer={} listed={}x want_listed={} max={} thr={} history=[{}]", x, n, want, max, thr, hist);
+            }
+        }
+        for (i, r) in &list {
+            if mgr.get_eviction_reason(i).as_ref() != Some(r) {
+                panic!("VERIF-SEARCH-HIT C16/evict/candidate_list_is_exactly_the_candidates_each_once_with_the_policy_reason reason mismatch history=[{}]", hist);
+            }
+        }
     }
-    assert!(c.len() <= 4 && other == 0, "C16/evict/candidates_are_tracked_peers");
-    assert!(nx == if x_is { 1 } else { 0 }, "C16/evict/candidate_list_has_each_candidate_once");
-    assert!(ny == if y_is { 1 } else { 0 }, "C16/evict/candidate_list_exact_for_other_peer");
-}
 
-// @verif property=C16 class=bounded bound="2 tracked peers; first tracked in: liveness=no, trust=no, marked=no" fns=EvictionManager::get_eviction_candidates uses=check_candidates,mk_manager,evict_harness unwindset="memcmp:34,simd_bitmask_impl:18,Hasher>::write:7,rehash_in_place:10,resize_inner:10,prepare_rehash_in_place:10,FullBucketsIndices:10" tier=quick,thorough panic=violation
-evict_harness!(c16_eviction_candidates_0, check_candidates, 0u8);
-// @verif property=C16 class=bounded bound="2 tracked peers; first tracked in: liveness=yes, trust=no, marked=no" fns=EvictionManager::get_eviction_candidates uses=check_candidates,mk_manager,evict_harness unwindset="memcmp:34,simd_bitmask_impl:18,Hasher>::write:7,rehash_in_place:10,resize_inner:10,prepare_rehash_in_place:10,FullBucketsIndices:10" tier=quick,thorough panic=violation
-evict_harness!(c16_eviction_candidates_1, check_candidates, 1u8);
-// @verif property=C16 class=bounded bound="2 tracked peers; first tracked in: liveness=no, trust=yes, marked=no" fns=EvictionManager::get_eviction_candidates uses=check_candidates,mk_manager,evict_harness unwindset="memcmp:34,simd_bitmask_impl:18,Hasher>::write:7,rehash_in_place:10,resize_inner:10,prepare_rehash_in_place:10,FullBucketsIndices:10" tier=quick,thorough panic=violation
-evict_harness!(c16_eviction_candidates_2, check_candidates, 2u8);
-// @verif property=C16 class=bounded bound="2 tracked peers; first tracked in: liveness=yes, trust=yes, marked=no" fns=EvictionManager::get_eviction_candidates uses=check_candidates,mk_manager,evict_harness unwindset="memcmp:34,simd_bitmask_impl:18,Hasher>::write:7,rehash_in_place:10,resize_inner:10,prepare_rehash_in_place:10,FullBucketsIndices:10" tier=quick,thorough panic=violation
-evict_harness!(c16_eviction_candidates_3, check_candidates, 3u8);
-// @verif property=C16 class=bounded bound="2 tracked peers; first tracked in: liveness=no, trust=no, marked=yes" fns=EvictionManager::get_eviction_candidates uses=check_candidates,mk_manager,evict_harness unwindset="memcmp:34,simd_bitmask_impl:18,Hasher>::write:7,rehash_in_place:10,resize_inner:10,prepare_rehash_in_place:10,FullBucketsIndices:10" tier=quick,thorough panic=violation
-evict_harness!(c16_eviction_candidates_4, check_candidates, 4u8);
-// @verif property=C16 class=bounded bound="2 tracked peers; first tracked in: liveness=yes, trust=no, marked=yes" fns=EvictionManager::get_eviction_candidates uses=check_candidates,mk_manager,evict_harness unwindset="memcmp:34,simd_bitmask_impl:18,Hasher>::write:7,rehash_in_place:10,resize_inner:10,prepare_rehash_in_place:10,FullBucketsIndices:10" tier=quick,thorough panic=violation
-evict_harness!(c16_eviction_candidates_5, check_candidates, 5u8);
-// @verif property=C16 class=bounded bound="2 tracked peers; first tracked in: liveness=no, trust=yes, marked=yes" fns=EvictionManager::get_eviction_candidates uses=check_candidates,mk_manager,evict_harness unwindset="memcmp:34,simd_bitmask_impl:18,Hasher>::write:7,rehash_in_place:10,resize_inner:10,prepare_rehash_in_place:10,FullBucketsIndices:10" tier=quick,thorough panic=violation
-evict_harness!(c16_eviction_candidates_6, check_candidates, 6u8);
-// @verif property=C16 class=bounded bound="2 tracked peers; first tracked in: liveness=yes, trust=yes, marked=yes" fns=EvictionManager::get_eviction_candidates uses=check_candidates,mk_manager,evict_harness unwindset="memcmp:34,simd_bitmask_impl:18,Hasher>::write:7,rehash_in_place:10,resize_inner:10,prepare_rehash_in_place:10,FullBucketsIndices:10" tier=quick,thorough panic=violation
-evict_harness!(c16_eviction_candidates_7, check_candidates, 7u8);
+    /// Random interleavings of failure/success/trust-update/mark/forget over 6 peers.
+    #[test]
+    fn verif_search_c16_evict() {
+        let seed: u64 = std::env::var("VERIF_SEED").ok().and_then(|s| s.parse().ok()).unwrap_or(0);
+        let mut r = Rng(0x9e37_79b9_7f4a_7c15 ^ seed.wrapping_mul(0x1000_0000_01b3) | 1);
+        let rounds: usize = std::env::var("VERIF_SEARCH_ROUNDS").ok().and_then(|s| s.parse().ok()).unwrap_or(600);
+        for _ in 0..rounds {
+            let max = 1 + r.below(4) as u32;
+            let thr = GRID[r.below(GRID.len() as u64) as usize];
+            let cfg = MaintenanceConfig { max_consecutive_failures: max, min_trust_threshold: thr, ..Default::default() };
+            let mut mgr = EvictionManager::new(cfg);
+            let mut m = Model { cf: Default::default(), trust: Default::default(), marked: Default::default() };
+            let mut hist = String::new();
+            check(&mgr, &m, max, thr, &hist);
+            for _ in 0..(1 + r.below(30)) {
+                let x = r.below(6) as u8;
+                match r.below(6) {
+                    0 | 1 => {
+                        mgr.record_failure(&id(x));
+                        *m.cf.entry(x).or_insert(0) += 1;
+                        hist.push_str(&format!("fail({}) ", x));
+                    }
+                    2 => {
+                        mgr.record_success(&id(x));
+                        m.cf.insert(x, 0);
+                        hist.push_str(&format!("ok({}) ", x));
+                        if mgr.should_evict(&id(x)) {
+                            panic!("VERIF-SEARCH-HIT C16/evict/one_success_clears_failure_based_candidacy peer={} max={} history=[{}]", x, max, hist);
+                        }
+                    }
+                    3 => {
+                        let s = GRID[r.below(GRID.len() as u64) as usize];
+                        mgr.update_trust_score(&id(x), s);
+                        m.trust.insert(x, s);
+                        hist.push_str(&format!("trust({},{}) ", x, s));
+                    }
+                    4 => {
+                        let reason = if r.below(2) == 0 { EvictionReason::CloseGroupRejection } else { EvictionReason::Stale };
+                        mgr.record_eviction(&id(x), reason.clone());
+                        m.marked.insert(x, reason);
+                        hist.push_str(&format!("mark({}) ", x));
+                    }
+                    _ => {
+                        mgr.remove_node(&id(x));
+                        m.cf.remove(&x);
+                        m.trust.remove(&x);
+                        m.marked.remove(&x);
+                        hist.push_str(&format!("forget({}) ", x));
+                    }
+                }
+                check(&mgr, &m, max, thr, &hist);
+            }
+        }
+    }
+}
 
 #[cfg(test)]
 include!("/verif/.build/replay/eviction.rs");
